@@ -166,9 +166,12 @@ pub(crate) fn scan_and_apply_units<S: TexlangState>(
             }
         };
         if let Some(v) = v_or {
-            let adjusted_fractional_part = v
-                .xn_over_d(fractional_part.0, Scaled::ONE.0)
-                .expect("n<d=Scaled::ONE, so overflow can't occur");
+            // This can overflow if v is not a legal dimension;
+            // e.g. an integer variable larger than 2^30 used as the unit.
+            let adjusted_fractional_part = match v.xn_over_d(fractional_part.0, Scaled::ONE.0) {
+                Ok(adjusted_fractional_part) => adjusted_fractional_part,
+                Err(_) => return handle_overflow(input, first_token, v < Scaled::ZERO),
+            };
             return match v.nx_plus_y(integer_part, adjusted_fractional_part.0) {
                 Ok(s) => Ok(s),
                 Err(_) => handle_overflow(input, first_token, v < Scaled::ZERO),
